@@ -22,11 +22,10 @@ import signal
 import sys
 import traceback
 
-from runtime.common import use_repo, spec_examples, alpha, SIGMA28, SIGMA12, pool_map, merge, chunks, REPO
+from runtime.common import use_repo, spec_examples, SIGMA28, SIGMA12, pool_map, merge, REPO
 from runtime.mtutil import keep_smallest
 
 use_repo()
-import mistletoe  # noqa: E402
 from mistletoe import Document, block_token, span_token, core_tokens, token as token_mod  # noqa: E402
 
 LIMIT_S = 10
@@ -306,7 +305,7 @@ def record(fails, cfg, form, x, g, phase, only_reused=False):
         'key': 'c01|%s|%s|%r' % (name, o, x), 'contract': 'c01', 'class': klass, 'phase': phase,
         'input': x, 'renderer': name, 'options': dict(opts, **({} if form == 'str' else {'form': form})),
         'observed': observed, 'expected': 'a str, no exception, < %d s' % LIMIT_S,
-        'replay': 'import io; from %s import %s; x=%r\nwith %s as r: print(r.render(mistletoe.Document(%s)))'
+        'replay': 'import io, mistletoe; from %s import %s; x=%r\nwith %s as r: print(r.render(mistletoe.Document(%s)))'
                   % (path.rsplit('.', 1)[0], path.rsplit('.', 1)[1], x, ctor, arg)})
 
 
